@@ -464,7 +464,9 @@ pub fn run(tier: Tier) -> i32 {
         texts.extend(texts_of(Alphabet { leaves: lv(&["x", "y", "2"]), uns: vec![], bins: f(&["^", "*", "/", "-"], false) }, &[(3, 0)], &t));
     }
     let n_texts = texts.len();
-    let m = Bookkeeping { texts: Arc::new(texts), max_len: if tier.thorough() { 5 } else { 4 } };
+    // (thorough: more base expressions at the same history length; a fifth step multiplied the
+    // run time by four without reaching new code)
+    let m = Bookkeeping { texts: Arc::new(texts), max_len: 4 };
     let st = explore(m, &mut rep, "c09", &format!("{n_texts} base expressions x flat/deep"));
     rep.count("unique_states", st.unique as u64);
     // more variables than the inline capacity of the variable lists (16), names shared between
